@@ -171,6 +171,13 @@ func arrayShape(a *crdt.Array) (dead, tombs int) {
 	return
 }
 
+func marshalOrNil(e crdt.Element) string {
+	if e == nil {
+		return "<nil>"
+	}
+	return e.Marshal()
+}
+
 func sliceInsert(xs []*val, i int, v *val) []*val {
 	out := make([]*val, 0, len(xs)+1)
 	out = append(out, xs[:i]...)
@@ -221,8 +228,19 @@ func applyArrayOp(w *world, a *yjson.Array, m *val, s Step, descOut *string, pre
 	if n > 0 {
 		i, j = s.A%n, s.B%n
 	}
-	if op == "nested" && m.arr[i].kind == 'l' {
-		op = "addInt"
+	if op == "nested" {
+		// pick among the container elements
+		var cs []int
+		for k, x := range m.arr {
+			if x.kind != 'l' {
+				cs = append(cs, k)
+			}
+		}
+		if len(cs) == 0 {
+			op = "addArr"
+		} else {
+			i = cs[s.A%len(cs)]
+		}
 	}
 	if (op == "setInt" || op == "setStr") && !kit.NoExclusions() {
 		// F2: ArraySet on an element that was moved earlier inserts the new value
@@ -307,7 +325,7 @@ func applyArrayOp(w *world, a *yjson.Array, m *val, s Step, descOut *string, pre
 		want := m.arr[i].marshal()
 		got := a.Delete(i)
 		if got == nil || got.Marshal() != want {
-			return kit.Failf("ARRAY-DELETE", "%s returned %v, model deletes %s", desc, got, want)
+			return kit.Failf("ARRAY-DELETE", "%s returned %s, model deletes %s", desc, marshalOrNil(got), want)
 		}
 		m.arr = sliceRemove(m.arr, i)
 	case "delOut":
@@ -412,7 +430,7 @@ func checkArrayProxy(a *yjson.Array, m *val) *kit.Failure {
 	}
 	for i := range m.arr {
 		if e := a.Get(i); e == nil || e.Marshal() != m.arr[i].marshal() {
-			return kit.Failf("ARRAY-GET", "clone: Get(%d)=%v, model %s (array %s)", i, e, m.arr[i].marshal(), m.marshal())
+			return kit.Failf("ARRAY-GET", "clone: Get(%d)=%s, model %s (array %s, Marshal() %s)", i, marshalOrNil(e), m.arr[i].marshal(), m.marshal(), a.Marshal())
 		}
 	}
 	return checkElem("clone:a", a.Array, m)
